@@ -387,6 +387,10 @@ def c12_5(ctx: Ctx) -> RuleResult:
     return res
 
 
+def _strip_none(t: Term) -> Term:
+    return t
+
+
 @rule(P)
 def c12_6(ctx: Ctx) -> RuleResult:
     res = RuleResult("C12.6", "FLOW", "BasicOptimizer.results / .variables are the tracker's value, and the tracker follows the optimizer step")
@@ -395,14 +399,31 @@ def c12_6(ctx: Ctx) -> RuleResult:
     run = bo.methods.get("run")
     if run is None:
         raise AnalysisError("BasicOptimizer.run not found")
-    txt = ast.unparse(run.node)
-    ok = "plan.get(tracker, 'results')" in txt
+    funcs = [run] + list(run.nested.values())
+    calls = [(f_, c_, X.at(f_, c_)) for f_ in funcs for c_ in calls_in(f_)]
+    # the tracker: add_handler("tracker", ...)
+    trk = [(f_, c_, t) for f_, c_, t in calls if t[0] == "call" and t[1][0] == "attr" and t[1][2] == "add_handler" and t[2] and t[2][0] == C("tracker")]
+    # the optimizer step: add_step("optimizer")
+    is_opt_step = lambda x: contains(x, lambda s_: s_[0] == "call" and s_[1][0] == "attr" and s_[1][2] == "add_step" and s_[2] and s_[2][0] == C("optimizer"))  # noqa: E731
+    is_tracker = lambda x: contains(x, lambda s_: s_[0] == "call" and s_[1][0] == "attr" and s_[1][2] == "add_handler" and s_[2] and s_[2][0] == C("tracker"))  # noqa: E731
+    gets = [t for _f, _c, t in calls if t[0] == "call" and t[1][0] == "attr" and t[1][2] == "get" and len(t[2]) == 2 and t[2][1] == C("results") and is_tracker(t[2][0])]
+    ok = bool(gets)
     res.add(run, run.node, "the reported result is plan.get(tracker, 'results')", ok, "" if ok else "result does not come from the tracker", construct="BasicOptimizer: result from tracker")
-    ok = "sources={optimizer}" in txt and "add_handler('tracker'" in txt
-    res.add(run, run.node, "the tracker is registered for the optimizer step's id", ok, "" if ok else "tracker not bound to the optimizer step", construct="BasicOptimizer: tracker sources")
-    ok = "constraint_tolerance=self._constraint_tolerance" in txt
-    res.add(run, run.node, "the configured constraint tolerance is handed to the tracker", ok, construct="BasicOptimizer: tolerance")
-    ok = "results.evaluations.variables" in txt
+    ok = bool(trk)
+    for _f, _c, t in trk:
+        kw = dict(t[3])
+        src = kw.get("sources")
+        ok = ok and src is not None and src[0] == "set" and len(src[1]) == 1 and is_opt_step(src[1][0])
+    res.add(run, trk[0][1] if trk else run.node, "the tracker is registered for the optimizer step's id", ok, "" if ok else "tracker not bound to the optimizer step", construct="BasicOptimizer: tracker sources")
+    ok = bool(trk) and all(ends_with_attrs(dict(t[3]).get("constraint_tolerance", ("const", None)), "_constraint_tolerance") for _f, _c, t in trk)
+    res.add(run, trk[0][1] if trk else run.node, "the configured constraint tolerance is handed to the tracker", ok, construct="BasicOptimizer: tolerance")
+    # .variables: the `variables=` of the stored record derives from <results>.evaluations.variables
+    NONE_ = ("const", None)
+    recs = [t for _f, _c, t in calls if t[0] == "call" and dict(t[3]).get("variables") is not None and dict(t[3]).get("results") is not None]
+    live = [t for t in recs if not (dict(t[3])["variables"] == NONE_ and dict(t[3])["results"] == NONE_)]
+    ok = bool(live) and all(
+        contains(dict(t[3])["variables"], lambda s_, t=t: s_[0] == "attr" and ends_with_attrs(s_, "evaluations", "variables") and contains(s_, lambda y: y == dict(t[3])["results"]))
+        for t in live)
     res.add(run, run.node, ".variables are the tracked result's variables", ok, construct="BasicOptimizer: variables")
     res.floor = 4
     return res
